@@ -63,12 +63,14 @@ type truth struct {
 	// "0.0.0.0 a.org a.org")
 	fHosts   bool
 	fV4, fV6 bag
+	cos      urlfilter.CosmeticResult // fault-free cosmetic result
 }
 
 func computeTruth(e *workload.Engines, o *workload.Op, scanHosts bool) *truth {
 	t := &truth{nrs: bag{}, v4: bag{}, v6: bag{}}
 	res := workload.Exec(e, o)
 	t.full = res.CanonFull()
+	t.cos = res.Cos
 	switch o.Kind {
 	case workload.OpDNS:
 		t.nrs, _ = bagOfNR(res.DNS.NetworkRules)
@@ -286,10 +288,29 @@ func checkDegraded(o *workload.Op, res *workload.Result, t *truth, P map[rkey]bo
 		_ = w.GetBasicResult()
 		_ = w.GetCosmeticOption()
 	case workload.OpCosmetic:
-		// cosmetic rules live in memory after construction: faults cannot
-		// touch them
-		if c := res.CanonFull(); c != t.full {
-			return "superset:" + oc, fmt.Sprintf("cosmetic result changed under a storage fault\n got:  %s\n want: %s", c, t.full)
+		// Today cosmetic rules live in memory after construction and a fault
+		// cannot touch them; a variant that retrieves them lazily may serve
+		// fewer.  What the property demands is a subset: no selector that
+		// the fault-free answer does not have (an unreadable EXCEPTION must
+		// not let its rule through).
+		want := t.cos
+		got := res.Cos
+		for _, x := range []struct {
+			name      string
+			got, want []string
+		}{{"ElementHiding.Generic", got.ElementHiding.Generic, want.ElementHiding.Generic}, {"ElementHiding.Specific", got.ElementHiding.Specific, want.ElementHiding.Specific},
+			{"ElementHiding.GenericExtCSS", got.ElementHiding.GenericExtCSS, want.ElementHiding.GenericExtCSS}, {"ElementHiding.SpecificExtCSS", got.ElementHiding.SpecificExtCSS, want.ElementHiding.SpecificExtCSS},
+			{"CSS.Generic", got.CSS.Generic, want.CSS.Generic}, {"CSS.Specific", got.CSS.Specific, want.CSS.Specific}, {"JS.Generic", got.JS.Generic, want.JS.Generic}, {"JS.Specific", got.JS.Specific, want.JS.Specific}} {
+			have := map[string]int{}
+			for _, w := range x.want {
+				have[w]++
+			}
+			for _, g := range x.got {
+				if have[g] == 0 {
+					return "superset:" + oc, fmt.Sprintf("cosmetic result %s contains %q, which the fault-free result does not (or not that often)\n got:  %s\n want: %s", x.name, g, res.Canon(), t.full)
+				}
+				have[g]--
+			}
 		}
 	}
 	return "", ""
